@@ -11,6 +11,9 @@ import (
 	"encoding/json"
 	"fmt"
 	"os"
+	"regexp"
+	"runtime"
+	"strconv"
 	"sort"
 	"strings"
 	"testing"
@@ -18,6 +21,7 @@ import (
 
 	"github.com/emitter-io/emitter/internal/event"
 	"github.com/emitter-io/emitter/internal/message"
+	"github.com/emitter-io/emitter/internal/network/listener"
 	"github.com/emitter-io/emitter/internal/security"
 	"github.com/emitter-io/emitter/verif/lab/brokerlab"
 	"github.com/emitter-io/emitter/verif/lab/fakenet"
@@ -66,10 +70,55 @@ func childSetup() *childState {
 	return c
 }
 
+// blockedHandlers looks, after a canary watchdog, for connection goroutines that have been blocked INSIDE the handling of a
+// received packet (broker.(*Conn).onReceive on their stack) on a lock, channel or condition for two minutes or more - the
+// runtime prints the wait time in the goroutine header. A goroutine merely waiting for input is not inside onReceive, and a
+// slow but progressing one is not blocked for minutes: this separates a deadlock from a loaded machine without a threshold
+// on CPU time. Returns the innermost non-runtime frames of the first such goroutine, or "".
+var blockedHdr = regexp.MustCompile(`^goroutine \d+ \[(sync\.Mutex\.Lock|sync\.RWMutex\.R?Lock|semacquire|chan send|chan receive|select|sync\.Cond\.Wait|sync\.WaitGroup\.Wait)[^\]]*, (\d+) minutes\]`)
+
+func blockedHandlers() string {
+	buf := make([]byte, 8<<20)
+	buf = buf[:runtime.Stack(buf, true)]
+	for _, g := range strings.Split(string(buf), "\n\n") {
+		lines := strings.Split(g, "\n")
+		m := blockedHdr.FindStringSubmatch(lines[0])
+		if m == nil || !strings.Contains(g, "internal/broker.(*Conn).onReceive") {
+			continue
+		}
+		if n, _ := strconv.Atoi(m[2]); n < 2 {
+			continue
+		}
+		var frames []string
+		for _, l := range lines[1:] {
+			if l == "" || l[0] == '\t' || l[0] == ' ' || strings.HasPrefix(l, "created by") {
+				continue
+			}
+			if i := strings.LastIndex(l, "("); i > 0 {
+				l = l[:i]
+			}
+			if strings.HasPrefix(l, "runtime.") || strings.HasPrefix(l, "sync.") || strings.HasPrefix(l, "internal/") {
+				continue
+			}
+			frames = append(frames, l)
+			if len(frames) == 3 {
+				break
+			}
+		}
+		return fmt.Sprintf("[%s, %s minutes] %s", m[1], m[2], strings.Join(frames, " < "))
+	}
+	return ""
+}
+
 func (c *childState) canaryRound() string {
 	c.seq++
 	p := fmt.Sprintf("canary-%d", c.seq)
 	if _, err := c.canary.Publish(c.key+"/canary/", []byte(p), false); err != nil {
+		if err == brokerlab.ErrWatchdog {
+			if b := blockedHandlers(); b != "" {
+				return "canary-hang: " + b
+			}
+		}
 		return "canary-failed: " + err.Error()
 	}
 	got, _ := c.canary.Take()
@@ -80,6 +129,12 @@ func (c *childState) canaryRound() string {
 	}
 	return "canary-failed: echo not received"
 }
+
+type errTimeout struct{}
+
+func (errTimeout) Error() string   { return "write tcp: i/o timeout" }
+func (errTimeout) Timeout() bool   { return true }
+func (errTimeout) Temporary() bool { return true }
 
 func handle(in []byte) string {
 	c := childSetup()
@@ -101,6 +156,60 @@ func handle(in []byte) string {
 			res = "connection-not-closed"
 		}
 		cl.Close()
+	case 'S', 'A': // a subscriber of the canary's channel behind the real listener.Conn whose socket stops accepting writes ('S') or is cut ('A')
+		if len(body) < 2 {
+			return "short scenario"
+		}
+		rate := []int{1, 3, 60, 1000}[int(body[0])%4]
+		rounds := 2 + int(body[1])%5
+		cl, sv := fakenet.Pair()
+		c.b.Svc.VerifAttach(listener.VerifNewConn(sv, rate))
+		cl.Write(append(mqttref.Connect("stalled", "", nil), mqttref.Subscribe(1, c.key+"/canary/")...))
+		deadline := time.Now().Add(120 * time.Second)
+		var raw []byte
+		for {
+			raw = append(raw, cl.TakeAll()...)
+			pk, _, _ := mqttref.Split(raw)
+			ack := false
+			for _, p := range pk {
+				if len(p) > 0 && p[0]>>4 == 9 {
+					ack = true
+				}
+			}
+			if ack {
+				break
+			}
+			if time.Now().After(deadline) {
+				cl.Close()
+				return "scenario-setup-watchdog | " + c.canaryRound()
+			}
+			cl.WaitData(20 * time.Millisecond)
+		}
+		if kind == 'S' {
+			sv.FailWrites(errTimeout{})
+		} else {
+			cl.Close()
+		}
+		res = fmt.Sprintf("subscriber-%c rate=%d", kind, rate)
+		for phase := 0; phase < 2; phase++ {
+			for i := 0; i < rounds; i++ {
+				if r := c.canaryRound(); r != "ok" {
+					cl.Close()
+					return res + " | " + r
+				}
+			}
+			if phase == 0 && body[1]%2 == 0 {
+				// let the connection's 1 s flush timer fire on the queued output before the next burst (not a verdict:
+				// only widens the schedules reached; the code under test owns this timer)
+				time.Sleep(1300 * time.Millisecond)
+			}
+		}
+		cl.Close()
+		select {
+		case <-sv.Closed():
+		case <-time.After(120 * time.Second):
+			res += " connection-not-closed"
+		}
 	case 'G':
 		_, err := c.b.Svc.VerifSwarm().OnGossip(body)
 		res = fmt.Sprintf("gossip err=%v", err != nil)
@@ -238,6 +347,13 @@ func genInputs(r *vk.Rand, key, master string, n int, tkeys map[string]string) [
 		add("extreme/json/"+name, session(key, mqttref.Publish(1, "emitter/"+name+"/", []byte(`{"ttl":1e400,"key":null,"channel":{"a":1},"changes":"x"}`), 1, false)))
 	}
 	add("extreme/history-startFromID-short", session(key, req(1, "history", map[string]interface{}{"key": key, "channel": key + "/canary/", "startFromID": []byte{1, 2, 3}})))
+	// subscribers of a busy channel whose socket stops accepting writes, or is cut, while output is queued for them
+	for rate := 0; rate < 4; rate++ {
+		for rounds := 0; rounds < 5; rounds += 2 {
+			add("extreme/stalled-subscriber", []byte{'S', byte(rate), byte(rounds)})
+			add("extreme/cut-subscriber", []byte{'A', byte(rate), byte(rounds)})
+		}
+	}
 	// over-long remaining length: must end the connection
 	for _, hdr := range [][]byte{{0x30, 0xff, 0xff, 0xff, 0x7f}, {0x30, 0x81, 0x80, 0x04}, {0x82, 0xff, 0xff, 0x7f}, {0x10, 0xff, 0xff, 0xff, 0xff, 0xff}} {
 		add("oversize-remaining-length", append(append([]byte{'C'}, hdr...), make([]byte, 70000)...))
@@ -442,7 +558,7 @@ func TestC09(t *testing.T) {
 		rec.Case(vk.Hash(string(in.bytes)), true)
 		rec.Inc("inputs_" + strings.SplitN(in.kind, "/", 2)[0])
 		side := "client-port"
-		if in.bytes[0] != 'C' {
+		if in.bytes[0] != 'C' && in.bytes[0] != 'S' && in.bytes[0] != 'A' {
 			side = "cluster-port"
 		}
 		w := map[string]interface{}{"generator": in.kind, "side": side, "input_len": len(in.bytes) - 1, "input_head_hex": fmt.Sprintf("%x", head(in.bytes[1:], 64))}
@@ -468,6 +584,13 @@ func TestC09(t *testing.T) {
 			rec.Inc("escaping_panics")
 			w["panic"] = o.Result
 			rec.Violation(i, side+"/escaping-"+sig, fmt.Sprintf("%s input (%s) panics in a gossip entry point that mesh calls without recover: %s", side, in.kind, o.Result), w)
+		case strings.Contains(o.Result, "canary-hang: "):
+			sig := o.Result[strings.Index(o.Result, "canary-hang: ")+13:]
+			if j := strings.Index(sig, "] "); j >= 0 {
+				sig = sig[j+2:]
+			}
+			w["blocked"] = o.Result
+			rec.Violation(i, side+"/hang @ "+sig, fmt.Sprintf("after %s input (%s) a connection goroutine is blocked for minutes inside the handling of a packet and the canary client is no longer served: %s", side, in.kind, o.Result), w)
 		case strings.Contains(o.Result, "canary-failed") && strings.Contains(o.Result, "watchdog expired"):
 			rec.Inconclusive("canary round trip watchdog after " + in.kind)
 		case strings.Contains(o.Result, "canary-failed"):
